@@ -115,8 +115,8 @@ sent: same kind, id (value and JSON type), method, params, result, error (C02's 
 theorem c06_typed_parses_back (st : Style) (m : Msg) (hb : Built m) (hw : wfMsg m = true) :
     ∃ l, ser st (.typed m) = some l ∧ (decLine (encode (codes l))).map parseMsg = some (.ok (view m)) := by
   refine ⟨enc st (emit m), rfl, ?_⟩
-  rw [decLine_codes]
-  exact Verif.Props.C02.c02_wire_roundtrip st m hb hw
+  rw [decLine_codes, Verif.Model.Json.dec_enc st (emit m) (Verif.Model.Rpc.wf_emit m hw)]
+  simp [parse_emit_of_ok m (built_ok hb)]
 
 /-- per item: decoding the line of an accepted item gives what the item denotes -/
 theorem c06_item_decodes (st : Style) (it : Outbound) (g : Guarded it) :
